@@ -19,7 +19,7 @@ class Deadlock(Exception):
 
 
 class Scheduler:
-    def __init__(self, seed, switch_prob=0.25, max_steps=200000, trace_lines=True):
+    def __init__(self, seed, switch_prob=0.25, max_steps=200000, trace_lines=True, hot=True):
         self.rng = random.Random(seed)
         self.switch_prob = switch_prob
         self.max_steps = max_steps
@@ -38,6 +38,7 @@ class Scheduler:
         # lock-free state changes happen here: pre-empt more often inside them
         self.hot_functions = {"close", "_response_closed", "_close_connections", "assign_to_connection", "clear_connection"}
         self.hot_prob = 0.6
+        self.hot_enabled = hot
         self.frozen = {}
 
     # ---- called from worker threads -------------------------------------------------------------------------------
@@ -112,7 +113,7 @@ class Scheduler:
                 raise Deadlock("step budget")
             for ob in self.observers:
                 ob(what)
-            hot = bool(what) and what[0] == "line" and (what[2] in self.hot_functions)
+            hot = self.hot_enabled and bool(what) and what[0] == "line" and (what[2] in self.hot_functions)
             self._pick_and_switch(me, hot=hot)
 
     def block_until(self, can_run, blocked_on, timeout_ok=False):
